@@ -100,7 +100,9 @@ impl ProcfsHandle {
     pub closed spec fn is_subset_spec(&self) -> bool { self.is_subset }
     pub closed spec fn inner_id(&self) -> int { self.inner.id() }
 //@prove procfs.ProcfsHandle.verify_same_procfs_mnt
+//@use procfs.ProcfsHandle.verify_same_procfs_mnt tok as=verify_same_procfs_mnt_tok
 //@prove procfs.ProcfsHandle.open_base
+//@use procfs.ProcfsHandle.open_base tok as=open_base_tok
 //@prove procfs.ProcfsHandle.open u14
 //@use procfs.ProcfsHandle.open fallback u14 as=open_nofollow_fallback
 //@prove procfs.ProcfsHandle.readlink u14
